@@ -111,7 +111,7 @@ def is_boundary(I, t):
     return exists(0, length(I), lambda i: I[i, 0] == t or I[i, 1] == t)
 
 
-@contract("mir_eval.util.merge_labeled_intervals", props="C13 C14", mask_triggers=True)
+@contract("mir_eval.util.merge_labeled_intervals", props="C13 C14 C12", mask_triggers=True)
 def merge_labeled_intervals(x_intervals: Arr(Real, None, 2), x_labels: Lst(ObjT), y_intervals: Arr(Real, None, 2), y_labels: Lst(ObjT)):
     """the common refinement of two aligned, contiguous annotations"""
     n = length(x_intervals)
